@@ -239,6 +239,89 @@ impl<T: Iterator<Item = char>> saphyr_parser::BorrowedInput<'static> for EofSafe
     }
 }
 
+/// Pass-through reader placed in front of the transcoding decoder.
+///
+/// For input that starts with a UTF-16 byte-order mark, a stream that ends inside a code unit
+/// or between the two halves of a surrogate pair is reported as an error. The decoder would
+/// otherwise replace the torn tail with U+FFFD, and a value built from truncated input would be
+/// returned (truncated UTF-8 is reported by `ChunkedChars` in the same way).
+struct Utf16TailGuard<R> {
+    inner: R,
+    /// The first two bytes of the stream (the place of a byte-order mark).
+    head: [u8; 2],
+    head_len: usize,
+    /// `Some(big_endian)` once the stream is known to be UTF-16.
+    utf16: Option<bool>,
+    /// First byte of a code unit whose second byte has not arrived yet.
+    half: Option<u8>,
+    /// The last complete code unit was a high surrogate.
+    pending_high: bool,
+}
+
+impl<R: Read> Utf16TailGuard<R> {
+    fn new(inner: R) -> Self {
+        Self {
+            inner,
+            head: [0; 2],
+            head_len: 0,
+            utf16: None,
+            half: None,
+            pending_high: false,
+        }
+    }
+
+    fn observe(&mut self, bytes: &[u8]) {
+        for &b in bytes {
+            if self.head_len < 2 {
+                self.head[self.head_len] = b;
+                self.head_len += 1;
+                if self.head_len == 2 {
+                    self.utf16 = match self.head {
+                        [0xFF, 0xFE] => Some(false),
+                        [0xFE, 0xFF] => Some(true),
+                        _ => None,
+                    };
+                }
+                continue;
+            }
+            let Some(big_endian) = self.utf16 else {
+                return;
+            };
+            match self.half.take() {
+                None => self.half = Some(b),
+                Some(first) => {
+                    let unit = if big_endian {
+                        u16::from_be_bytes([first, b])
+                    } else {
+                        u16::from_le_bytes([first, b])
+                    };
+                    self.pending_high = (0xD800..0xDC00).contains(&unit);
+                }
+            }
+        }
+    }
+}
+
+impl<R: Read> Read for Utf16TailGuard<R> {
+    fn read(&mut self, buf: &mut [u8]) -> io::Result<usize> {
+        let n = self.inner.read(buf)?;
+        if n == 0 {
+            if !buf.is_empty() && self.utf16.is_some() && (self.half.is_some() || self.pending_high)
+            {
+                return Err(io::Error::new(
+                    io::ErrorKind::UnexpectedEof,
+                    "unexpected EOF in middle of UTF-16 character",
+                ));
+            }
+            return Ok(0);
+        }
+        if self.head_len < 2 || self.utf16.is_some() {
+            self.observe(&buf[..n]);
+        }
+        Ok(n)
+    }
+}
+
 /// Creates buffered input and returns both input and reference to the variable
 /// holding the possible error. We cannot otherwise later reach our ChunkedChars.
 pub fn buffered_input_from_reader_with_limit<'a, R: Read + 'a>(
@@ -252,7 +335,7 @@ pub fn buffered_input_from_reader_with_limit<'a, R: Read + 'a>(
         // truncated UTF-8 is reported by `ChunkedChars` instead of being replaced with U+FFFD.
         .utf8_passthru(true)
         .strip_bom(true)
-        .build(reader);
+        .build(Utf16TailGuard::new(reader));
 
     let error: ReaderInputError = Rc::new(RefCell::new(None));
 
